@@ -112,9 +112,14 @@ Definition enc_astep (s : astep) : list Z :=
 Definition amodel (c : acase) : list astep :=
   arun (auth_new 0 (ac_addr c) (ac_name c) (ac_confs c)) 0 (ac_events c).
 
+(* KueblerEncoder::new panics for a unit address outside 0x6A..0x6D (driver/net/encoder.rs) *)
+Definition encoder_addr_panics (c : acase) : bool :=
+  existsb (fun d => (c_key d =? key_kuebler_encoder) && negb ((106 <=? c_da d) && (c_da d <=? 109))) (ac_confs c).
+
 Definition auth_run (l : list Z) : list Z :=
   match acase_of l with
-  | Some c => let steps := amodel c in Z.of_nat (length steps) :: flat_map enc_astep steps
+  | Some c => if encoder_addr_panics c then panic_obs else
+              let steps := amodel c in Z.of_nat (length steps) :: flat_map enc_astep steps
   | None => bad_case
   end.
 
